@@ -259,6 +259,7 @@ func runC13(r *Run) error {
 		"Flush, then 1-6 operations, compared with the same operations on a fresh instance; non-trivial = the graph is not feed-forward; distinct by network and operations"
 	c13DirectSolvers(r)
 	depthQueryHistories(r, "C13")
+	twoSolversOneNetwork(r, "C13")
 	var inputs []c12Input
 	fams := []string{"random", "self-loop", "2-cycle", "3-cycle", "time-delayed", "into-sensors", "feed-forward-ish"}
 	n := r.N(300, 4000)
